@@ -268,6 +268,8 @@ def run(desc, M):
         else:
             unchanged(M, cpd, s0, f"{fam}(inplace=False) leaves original")
         check_cpd(desc, M, res, rest, fn, fam.split("/")[1], order=rest)
+        if fam == "cpd/marginalize":
+            check_labelled_export(desc, M, res, fn, "marginalize")
 
 
 def run_check_model(desc, M):
